@@ -128,7 +128,7 @@ type history []string // N = new both, S = start both, P = wait for peering, X =
 func TestC20(t *testing.T) {
 	env := kit.GetEnv()
 	rep := kit.NewReport("C20", env)
-	rep.Rule = "configurations: universe {'', 'u'} x secret {'', 's'} x lite x stub x services {0,1} x friends {0,1} x listeners {1,2 loopback ports} x state storage {memory, json file} x API listener {none, free loopback port} (quick: a pairwise-covering subset of 24, thorough: all 512) for a pair of real relay-only instances (second dials the first); plus, for every sixth configuration (thorough: all), three routers on one host of which one has two connect URLs and must peer with both; histories: every well-formed word over {New, Start, Peer, Stop (sequential), Stop (both concurrently)} of up to 3 cycles from a fixed family (start-stop, start-peer-stop, construct-only, stop-without-start, double stop, and their repetitions) in one process; observed: panics/errors of New/Start, link on both sides, return value of Stop, goroutine count back to the pre-New baseline after every cycle; non-trivial = every case (each has >= 1 full cycle); distinct = distinct (configuration, history)"
+	rep.Rule = "configurations: universe {'', 'u'} x secret {'', 's'} x lite x stub x services {0,1} x friends {0,1} x listeners {1,2 loopback ports} x state storage {memory, json file} x API listener {none, free loopback port} (quick: a pairwise-covering subset of 24, thorough: all 512) for a pair of real relay-only instances (second dials the first); plus, for every sixth configuration (thorough: all), three routers on one host of which one has two connect URLs and must peer with both; histories: every well-formed word over {New, Start, Peer, Stop (sequential), Stop (both concurrently)} of up to 3 cycles from a fixed family (start-stop, start-peer-stop, construct-only, stop-without-start, double stop, and their repetitions) in one process; plus the module group alone with stub modules: all assignments of {ok, start fails, stop fails, worker never ends} to 4 modules with at most 2 faults (virtual time): every started module stopped once in reverse order, managers cancelled, result reports the failure; observed: panics/errors of New/Start, link on both sides, return value of Stop, goroutine count back to the pre-New baseline after every cycle; non-trivial = every case (each has >= 1 full cycle); distinct = distinct (configuration, history)"
 	rep.Assumptions = []string{
 		"this check runs on real loopback TCP in real time: goroutine schedules are NOT controlled; the property is quantified over configurations and histories only, which are enumerated exhaustively",
 		"waiting uses monotone conditions polled under a 30 s ceiling; no short wall-clock oracle is used",
@@ -401,6 +401,9 @@ func TestC20(t *testing.T) {
 		} else {
 			rep.Outcome("failed-lifecycle")
 		}
+	}
+	if env.Mine(1) {
+		groupFaults(t, rep, &evals, &nontrivial)
 	}
 	rep.Add(evals, nontrivial, 0, 0)
 	if err := rep.Finish(env); err != nil {
